@@ -69,7 +69,10 @@ def replace_kind(program, old, new, counter):
 
 
 def check_seq(case):
-    run = P.run_program(case["program"], sink="memory")
+    from .c03 import build_extractors
+
+    opts = {"extractors": build_extractors(case["extractors"])} if case.get("extractors") else None
+    run = P.run_program(case["program"], sink="memory", opts=opts)
     require(not run.errors, "api-raised", lambda: repr(run.errors))
     info = invariants.check_messages(run.messages)
     info["remote"] = run.stats.get("remote", 0) + run.stats.get("preserve", 0)
@@ -144,7 +147,9 @@ def faulty_strategy():
 
 
 def seq_strategy():
-    return st.builds(lambda p: {"program": p}, P.programs(max_nodes=14))
+    from .c03 import extractor_specs
+
+    return st.builds(lambda ex, p: {"extractors": ex, "program": p}, st.one_of(st.just([]), extractor_specs()), P.programs(max_nodes=14))
 
 
 def collide_strategy():
